@@ -571,8 +571,12 @@ func checkPostWithOutputs(ri *ReplayInfo, o *Obligation, lines []string) (bool, 
 			if f[0] != "bytes" {
 				return false, "result " + res.Name + " is not observable"
 			}
-			if _, usesOff := st.vars[v.Off.Name]; usesOff && v.Off.Op == "var" {
+			if len(v.Comp) == 1 && mentionsArrayEq(post, v.Comp[0]) {
 				return false, "postcondition speaks about slice identity of " + res.Name + ": not comparable with observed bytes"
+			}
+			if v.Off.Op == "var" {
+				// a fresh result: its position in its backing array is immaterial
+				asm = append(asm, Eq(v.Off, ar.idxC(0)))
 			}
 			n, _ := strconv.Atoi(f[1])
 			asm = append(asm, Eq(v.Len, ar.idxC(int64(n))))
